@@ -10,7 +10,7 @@ def components():
 
 
 def oracles_():
-    return [X.XPathFastPair(), X.XPathRegress(), X.XPathSan()]
+    return [X.XPathFastPair(), X.XPathMust(), X.XPathRegress(), X.XPathSan()]
 
 
 TRUSTED = [
@@ -29,7 +29,7 @@ MANIFEST = {
             "artefact is (A) an executable reference semantics of XPath 1.0 on YANG data trees written from the W3C "
             "recommendation (XPathSem.eval with spec_flags: 13 axes, node tests, predicates with position()/last(), filters, "
             "unions, operators, core function library, current()), carrying one switch per construct in which xpath.c still "
-            "departs from the recommendation (impl_flags = as coded, 8 switches), proved to have the set-theoretic properties "
+            "departs from the recommendation (impl_flags = as coded, 7 switches), proved to have the set-theoretic properties "
             "of the property text FOR EVERY SETTING OF THE SWITCHES, in particular as coded: C08_eval_nodeset_sorted_nodup / "
             "C08_eval_nodeset_nodup / C08_eval_nodeset_nodup_as_coded (every node-set value of every expression is strictly "
             "increasing in document order, hence duplicate free), C08_union_comm, C08_predicate_true_identity, "
@@ -42,12 +42,14 @@ MANIFEST = {
             "(C08_string_length_ascii) with refutation witnesses elsewhere; "
             "the two conversion kernels of the code are tied to the recommendation kernel at 64 bits. Tie to xpath.c: differential testing only - "
             "lyxp_eval()/lyd_eval_xpath4() on generated expressions x trees x context nodes must answer the reference result, or "
-            "the as-coded result, in which case the needed switches name a LISTED deviation (known_findings.d/xpath.json: 8 "
+            "the as-coded result, in which case the needed switches name a LISTED deviation (known_findings.d/xpath.json: 7 "
             "known, each with a replay on the real library; a switch whose replay answers the reference result is put back "
-            "for the run, so a repaired deviation needs no model change; 26 fixed in /repo 61e2388..54bf5db, whose witnesses "
+            "for the run, so a repaired deviation needs no model change; 27 fixed in /repo 61e2388..c545a4e, whose witnesses "
             "stay as regression cases); any other answer, crash or failed assertion is a violation. Oracles on the implementation "
             "itself: key predicates answered by the hash lookup select the same nodes as forced generic evaluation, on lists "
-            "without and with the children hash table; no sanitizer report on generated expressions.",
+            "without and with the children hash table; the must decisions of lyd_validate_module() equal the conjunction of "
+            "lyd_eval_xpath3() of every must of every node (explicit, default leaf, implicit container, list instance) of the "
+            "default-completed tree on generated modules and data; no sanitizer report on generated expressions.",
     "note": "Not modelled: deref(), re-match(), derived-from(-or-self)(), enum-value(), bit-is-set(), lang(), id(), "
             "namespace-uri(), variables, metadata (attribute axis is empty in the model), opaque nodes, when/must integration, "
             "schema (atom) evaluation. Unprefixed names follow the JSON rule (module of the parent node). The key lookup of "
